@@ -20,6 +20,9 @@ int main(int argc, char *argv[]) {
     po::store(po::parse_command_line(argc, argv, desc), vm);
     if (vm.count("cores")) {
         std::size_t cores = vm["cores"].as<int>();
+        if (cores == 0 || cores > 4) {
+            cores = 4;                                   // R20c: clamps the requested value
+        }
         if (vm["verbose"].as<bool>() && vm["parallel"].as<bool>()) {
             parmcb::set_global_tbb_concurrency(cores);
         }
